@@ -171,7 +171,10 @@ impl SourceView {
     }
 
     /// Returns a requested minified line.
+    #[allow(unexpected_cfgs)]
     pub fn get_line(&self, idx: u32) -> Option<&str> {
+        #[cfg(sourcemap_verif)]
+        crate::verif::yield_point(0);
         let idx = idx as usize;
         {
             let lines = self.lines.lock().unwrap();
@@ -180,15 +183,21 @@ impl SourceView {
             }
         }
 
+        #[cfg(sourcemap_verif)]
+        crate::verif::yield_point(1);
         // fetched everything
         if self.processed_until.load(Ordering::Relaxed) > self.source.len() {
             return None;
         }
 
+        #[cfg(sourcemap_verif)]
+        crate::verif::yield_point(2);
         let mut lines = self.lines.lock().unwrap();
         let mut done = false;
 
         while !done {
+            #[cfg(sourcemap_verif)]
+            crate::verif::yield_point(3);
             let rest = &self.source.as_bytes()[self.processed_until.load(Ordering::Relaxed)..];
 
             let rv = if let Some(mut idx) = rest.iter().position(|&x| x == b'\n' || x == b'\r') {
@@ -303,8 +312,11 @@ impl SourceView {
     }
 
     /// Returns the number of lines.
+    #[allow(unexpected_cfgs)]
     pub fn line_count(&self) -> usize {
         self.get_line(!0);
+        #[cfg(sourcemap_verif)]
+        crate::verif::yield_point(4);
         self.lines.lock().unwrap().len()
     }
 
